@@ -88,6 +88,13 @@ impl<T> ResourceStorage<T> {
 	pub fn is_empty(&self) -> bool {
 		self.resources.is_empty()
 	}
+
+	/// Returns `true` if resources have been sent to this storage
+	/// that `remove_and_add` has not picked up yet.
+	#[must_use]
+	pub fn has_pending(&self) -> bool {
+		!self.new_resource_consumer.is_empty()
+	}
 }
 
 impl<'a, T> IntoIterator for &'a mut ResourceStorage<T> {
